@@ -61,6 +61,10 @@ CHECKS = {
    technique="TLC model checking of spec/Syntax.tla (byte-level reference tokenizer vs transcribed Lexer::next_word over all byte strings up to a bound: SameTokens, CursorSafe) and spec/Spelling.tla (item-level conformant printer: NeedsSep vs the library's delimiter table) + replay of every string / spelling through the library's lexer and parser against an independent reference parser",
    text="All byte strings <= 4/5/6 over 12 representative bytes are tokenised by the reference tokenizer and the library model in TLC (two deviations refuted) and by the real Lexer; all atom spellings x separators x contexts and all two-element containers are generated by the printer model, rendered with the harness' atom catalogue and parsed by the library; value, exact consumption and the parse of the follower are compared with the independent reference parser.",
    note="The spelling layer is item-level (bytes of atom variants live in the harness catalogue); trusted: TLC, refparse.rs."),
+ "C04": dict(level="model_checking", design="5/C04", engine="A:serial",
+   technique="TLC model checking of spec/Serializer.tla (the serializer as a deterministic printer over value classes x placements against the reader rules: StringsRoundTrip, NamesRoundTrip, NumbersRoundTrip, PlacementsOk) + class expansion and replay through Primitive::serialize and both parsers",
+   text="The spec states per byte/character/number class what the serializer writes and what the reader makes of it, in each of the four placements, and TLC refutes four deviations (raw CR, raw name characters, big integers rejected, missing separator before endobj); every class is expanded in the harness to concrete values (all byte values, Unicode boundaries, numeric boundaries), written by the real serializer in the real framing and parsed back by the library and by an independent reference parser.",
+   note="Class-level model (small); the assurance comes from the exhaustive class expansion in the replay. f32 formatting is sampled, not modelled."),
 }
 
 def main():
